@@ -141,7 +141,10 @@ func (x *Exec) execBlock(list []ast.Stmt, st *State, env *Env) Flow {
 func (x *Exec) execStmtWithPoints(s ast.Stmt, st *State, env *Env) Flow {
 	// only simple statements carry anchors; compound statements are traversed
 	switch s.(type) {
-	case *ast.AssignStmt, *ast.ExprStmt, *ast.ReturnStmt, *ast.SendStmt, *ast.IncDecStmt, *ast.DeclStmt:
+	case *ast.AssignStmt, *ast.ExprStmt, *ast.ReturnStmt, *ast.SendStmt, *ast.IncDecStmt, *ast.DeclStmt, *ast.SwitchStmt, *ast.IfStmt:
+		if len(x.anchors[s]) == 0 {
+			return x.execStmt(s, st, env)
+		}
 		for _, a := range x.anchors[s] {
 			x.runPoints("before", a, st, s.Pos())
 		}
@@ -165,6 +168,7 @@ func (x *Exec) runPoints(when, anchor string, st *State, pos token.Pos) {
 		if p.When != when || p.Anchor != anchor {
 			continue
 		}
+		x.usedPoints[i] = true
 		cenv := x.contractEnv(pos)
 		if p.Assert != nil {
 			x.c.inContract++
@@ -644,6 +648,26 @@ func (x *Exec) havocLoop(body ast.Node, extra []types.Object, st *State, env *En
 			x.c.assume("true", or(eq(x.c.accessor("s.ref", nv.T), x.c.accessor("s.ref", old.T)), app(">=", x.c.accessor("s.ref", nv.T), allocEntry)))
 		}
 	}
+	// the same automatic framing invariant for slice-typed field paths (v.f, v.f.g) that the body appends to / stores into
+	for _, pe := range x.writtenFieldPaths(body, env.info) {
+		var pre, post Val
+		func() {
+			saved := x.c.inContract
+			defer func() {
+				x.c.inContract = saved
+				recover()
+			}()
+			x.c.inContract++
+			pre = x.eval(pe, st.clone(), env)
+			post = x.eval(pe, h.clone(), env)
+		}()
+		if pre.T == "" || post.T == "" || pre.T == post.T {
+			continue
+		}
+		preRef := x.c.accessor("s.ref", pre.T)
+		lc.autoPaths = append(lc.autoPaths, autoPath{pe, preRef})
+		x.c.assume("true", or(eq(x.c.accessor("s.ref", post.T), preRef), app(">=", x.c.accessor("s.ref", post.T), allocEntry)))
+	}
 	if allocs {
 		h.alloc = x.c.freshConst("alloc", "Int")
 		x.c.assume("true", app(">=", h.alloc, allocEntry))
@@ -747,7 +771,59 @@ func (x *Exec) havocLoop(body ast.Node, extra []types.Object, st *State, env *En
 }
 
 // checkAutoFrame re-establishes the automatic slice-framing invariant at the end of a loop body
+// writtenFieldPaths: selector paths (not plain identifiers) of slice type that the body appends to or stores through
+func (x *Exec) writtenFieldPaths(body ast.Node, info *types.Info) []ast.Expr {
+	var out []ast.Expr
+	seen := map[string]bool{}
+	add := func(e ast.Expr) {
+		if _, isSel := e.(*ast.SelectorExpr); !isSel || !isPath(e) {
+			return
+		}
+		if t := info.TypeOf(e); t != nil {
+			if _, ok := t.Underlying().(*types.Slice); ok && !seen[exprString(e)] {
+				seen[exprString(e)] = true
+				out = append(out, e)
+			}
+		}
+	}
+	ast.Inspect(body, func(nd ast.Node) bool {
+		switch n := nd.(type) {
+		case *ast.AssignStmt:
+			for _, l := range n.Lhs {
+				if ix, ok := l.(*ast.IndexExpr); ok {
+					add(ix.X)
+				}
+			}
+		case *ast.CallExpr:
+			if id, ok := n.Fun.(*ast.Ident); ok && (id.Name == "append" || id.Name == "copy") && len(n.Args) > 0 {
+				add(n.Args[0])
+			}
+		case *ast.FuncLit:
+			return false
+		}
+		return true
+	})
+	return out
+}
+
 func (x *Exec) checkAutoFrame(lc *loopCtx, end *State, ord int, pos token.Pos) {
+	for _, a := range lc.autoPaths {
+		var v Val
+		func() {
+			saved := x.c.inContract
+			defer func() {
+				x.c.inContract = saved
+				recover()
+			}()
+			x.c.inContract++
+			v = x.eval(a.expr, end.clone(), x.codeEnv)
+		}()
+		if v.T == "" {
+			continue
+		}
+		r := x.c.accessor("s.ref", v.T)
+		x.oblige(fmt.Sprintf("loop%d.autoframe(%s)", ord, exprString(a.expr)), 0, pos, end, or(eq(r, a.preRef), app(">=", r, lc.allocEntry)), "slice field still points to its pre-loop array or to one allocated inside the loop")
+	}
 	for _, a := range lc.autoSlices {
 		v, ok := end.vars[a.obj]
 		if !ok {
@@ -768,18 +844,40 @@ func sortedGhostKeys(m map[string]Val) []string {
 
 func ghostAssigned(stmts []ast.Stmt) []string {
 	seen := map[string]bool{}
+	var root func(e ast.Expr) string
+	root = func(e ast.Expr) string {
+		switch n := e.(type) {
+		case *ast.Ident:
+			return n.Name
+		case *ast.IndexExpr:
+			return root(n.X)
+		case *ast.SelectorExpr:
+			return root(n.X)
+		case *ast.ParenExpr:
+			return root(n.X)
+		case *ast.StarExpr:
+			return root(n.X)
+		}
+		return ""
+	}
 	for _, s := range stmts {
 		ast.Inspect(s, func(nd ast.Node) bool {
 			switch n := nd.(type) {
 			case *ast.AssignStmt:
 				for _, l := range n.Lhs {
-					if id, ok := l.(*ast.Ident); ok {
-						seen[id.Name] = true
+					if r := root(l); r != "" {
+						seen[r] = true
 					}
 				}
 			case *ast.IncDecStmt:
-				if id, ok := n.X.(*ast.Ident); ok {
-					seen[id.Name] = true
+				if r := root(n.X); r != "" {
+					seen[r] = true
+				}
+			case *ast.CallExpr:
+				if id, ok := n.Fun.(*ast.Ident); ok && id.Name == "delete" && len(n.Args) > 0 {
+					if r := root(n.Args[0]); r != "" {
+						seen[r] = true
+					}
 				}
 			}
 			return true
@@ -1187,7 +1285,7 @@ func mergeNames(a, b map[string]Val) map[string]Val {
 var pureLib = map[string]bool{
 	"errors.New": true, "fmt.Errorf": true, "strconv.Itoa": true, "strconv.FormatFloat": true, "strconv.Atoi": true,
 	"strings.Join": true, "strings.ToUpper": true, "(*os.File).WriteString": true, "fmt.Fprintf": true, "fmt.Fprintln": true,
-	"fmt.Fprint": true, "unicode/utf8.DecodeRune": true, "unicode.IsLetter": true, "math.Log": true,
+	"fmt.Fprint": true, "unicode/utf8.DecodeRune": true, "unicode.IsLetter": true, "math.Log": true, "math.IsNaN": true,
 	"(*bufio.Scanner).Bytes": true, "(*bufio.Scanner).Text": true, "(*bufio.Scanner).Err": true, "(*bufio.Scanner).Buffer": true,
 }
 
